@@ -195,7 +195,11 @@ def run(tier):
         "discriminant, [r]G=O with invertible denominators (Goldwasser-Kilian => p prime); Hasse interval => #E=r; "
         "cofactor; scalar-field modulus = r; mul_by_a as linear form = a*x"
     )
-    configs = ["default"] if tier == "quick" else ["default", "nostd", "parallel"]
+    from .common import cfg_rule, configs_for, dependency_rule
+
+    dependency_rule(ck)
+    cfg_rule(ck)  # constants gated on a configuration none of the analysed builds decides: fail closed
+    configs = configs_for(tier)
     results = []
     for cfg in configs:
         F = FX.load(cfg)
